@@ -1020,6 +1020,9 @@ class Emitter:
             return '%du' % self.local_enums[nm]
         if rk == 'EnumConstantDecl':
             et = self.strip_cv(self.tstr(r['type']))
+            if '(unnamed' in et or '(anonymous' in et:
+                # enumerator of an unnamed enum: it is reachable as <enclosing scope>::<name>
+                et = re.sub(r'::\((unnamed|anonymous)[^)]*\)$', '', et)
             key = et + '::' + nm
             cn = 'E_' + ident(key)
             self.enum_refs[cn] = key
